@@ -5,6 +5,8 @@ import (
 	"context"
 	"errors"
 	"fmt"
+	"runtime"
+	"time"
 
 	"github.com/bradenaw/juniper/parallel"
 
@@ -15,17 +17,39 @@ type Params struct {
 	Variant string // "Do", "DoContext", "Map", "MapContext"
 	N, P    int
 	Fail    []int  // indices whose call returns an error (Context variants)
-	Ctx     string // "live", "precancelled", "midflight"
+	Ctx     string // "live", "precancelled", "midflight", "deadline" (the caller's context ends by a deadline mid-flight)
 	Procs   int    // value GOMAXPROCS reports (set in mc.Config by main)
+	// FailWrapsCanceled: the failing calls return an error of their own that wraps context.Canceled
+	// (errors.Is(err, context.Canceled) holds although nobody was cancelled)
+	FailWrapsCanceled bool
+	// GoexitAt: the call for this index ends its goroutine with runtime.Goexit (as t.Fatal inside f
+	// does) instead of returning; 0 = none (index 0 never does)
+	GoexitAt int
 }
 
 func (p Params) Name() string {
-	return fmt.Sprintf("par/%s/n=%d/p=%d/fail=%v/ctx=%s/procs=%d", p.Variant, p.N, p.P, p.Fail, p.Ctx, p.Procs)
+	s := fmt.Sprintf("par/%s/n=%d/p=%d/fail=%v/ctx=%s/procs=%d", p.Variant, p.N, p.P, p.Fail, p.Ctx, p.Procs)
+	if p.FailWrapsCanceled {
+		s += "/errors-wrap-Canceled"
+	}
+	if p.GoexitAt > 0 {
+		s += fmt.Sprintf("/f(%d)-calls-Goexit", p.GoexitAt)
+	}
+	return s
 }
 
-type callErr struct{ i int }
+type callErr struct {
+	i     int
+	wraps bool
+}
 
 func (e callErr) Error() string { return fmt.Sprintf("call %d failed", e.i) }
+func (e callErr) Unwrap() error {
+	if e.wraps {
+		return context.Canceled
+	}
+	return nil
+}
 
 func (p Params) Body() func() {
 	return func() {
@@ -46,6 +70,9 @@ func (p Params) Body() func() {
 			failSet[i] = true
 		}
 		ctx, cancel := context.WithCancel(context.Background())
+		if p.Ctx == "deadline" {
+			ctx, cancel = context.WithTimeout(context.Background(), time.Millisecond)
+		}
 		defer cancel()
 		if p.Ctx == "precancelled" {
 			cancel()
@@ -77,7 +104,7 @@ func (p Params) Body() func() {
 				if active > maxActive {
 					maxActive = active
 				}
-				if pre && !callerCancelled {
+				if pre && !callerCancelled && ctx.Err() == nil {
 					cancelledAtEntry++
 				}
 			})
@@ -93,8 +120,11 @@ func (p Params) Body() func() {
 					firstFailExit = seq
 				}
 			})
+			if p.GoexitAt > 0 && i == p.GoexitAt {
+				runtime.Goexit() // the call has finished; its worker is gone
+			}
 			if failSet[i] {
-				return callErr{i}
+				return callErr{i, p.FailWrapsCanceled}
 			}
 			return nil
 		}
@@ -150,6 +180,9 @@ func (p Params) Body() func() {
 					hx.Fail("map-result", "result has %d items, want %d", len(out), p.N)
 				}
 				for i, v := range out {
+					if p.GoexitAt > 0 && i == p.GoexitAt {
+						continue // that call never returned a value
+					}
 					if v != 100+i {
 						hx.Fail("map-result", "out[%d]=%d, want %d", i, v, 100+i)
 					}
@@ -164,6 +197,8 @@ func (p Params) Body() func() {
 					ok = failSet[ce.i] && calls[ce.i] == 1 && err == error(ce)
 				} else if callerCancelled && err == context.Canceled {
 					ok = true
+				} else if p.Ctx == "deadline" && err == ctx.Err() {
+					ok = true // the caller's own context error (DeadlineExceeded)
 				}
 				if !ok {
 					hx.Fail("foreign-error", "returned %v, which no call returned and is not the caller's context error", err)
@@ -242,6 +277,17 @@ func All() []Params {
 		Params{Variant: "DoContext", N: 2, P: 2, Ctx: "precancelled", Procs: 2},
 		Params{Variant: "DoContext", N: 3, P: 2, Ctx: "midflight", Procs: 2},
 		Params{Variant: "DoContext", N: 3, P: 2, Fail: []int{1}, Ctx: "midflight", Procs: 2},
+		Params{Variant: "DoContext", N: 3, P: 2, Ctx: "deadline", Procs: 2},
+		Params{Variant: "MapContext", N: 2, P: 2, Ctx: "deadline", Procs: 2},
+		Params{Variant: "DoContext", N: 3, P: 2, Fail: []int{1}, Ctx: "live", Procs: 2, FailWrapsCanceled: true},
+		Params{Variant: "MapContext", N: 2, P: 2, Fail: []int{0}, Ctx: "live", Procs: 2, FailWrapsCanceled: true},
+		Params{Variant: "DoContext", N: 2, P: 1, Fail: []int{1}, Ctx: "live", Procs: 2, FailWrapsCanceled: true},
+		// a call that ends its goroutine: the function still returns, the other indices are still served
+		Params{Variant: "Do", N: 3, P: 2, Ctx: "live", Procs: 2, GoexitAt: 1},
+		Params{Variant: "Map", N: 4, P: 3, Ctx: "live", Procs: 2, GoexitAt: 2},
+		// more indices than any fixed-size queue of them would hold
+		Params{Variant: "Do", N: 1100, P: 2, Ctx: "live", Procs: 2},
+		Params{Variant: "DoContext", N: 1100, P: 3, Ctx: "live", Procs: 2},
 		Params{Variant: "Map", N: 3, P: 2, Ctx: "live", Procs: 2},
 		Params{Variant: "Map", N: 2, P: 0, Ctx: "live", Procs: 3},
 		Params{Variant: "MapContext", N: 3, P: 2, Ctx: "live", Procs: 2},
